@@ -344,15 +344,15 @@ func runGenOp(ic *IC, ex *exec.Exec, st *L3State, m *L3Mock, op l3op) {
 		}
 	}
 	sig := fn.Signature
-	checkRecorded := func() {
+	checkRecorded := func(tag string) {
 		ws := ti.Writes[cellName]
 		if len(ws) != 1 {
-			ex.Fail(fmt.Sprintf("C04: %s.%s writes its record list %d times (want exactly once)", m.Name, fname, len(ws)))
+			ex.Fail(fmt.Sprintf(tag+": %s.%s writes its record list %d times (want exactly once)", m.Name, fname, len(ws)))
 			return
 		}
 		n := sliceLen(ex, preV)
 		post := ws[0]
-		ex.Oblige(c.Eq(sliceLen(ex, post), c.Add(n, c.IntC(1))), "C04: the call appends exactly one record (len' = len + 1)")
+		ex.Oblige(c.Eq(sliceLen(ex, post), c.Add(n, c.IntC(1))), tag+": the call appends exactly one record (len' = len + 1)")
 		elt := h.Elt[op.method]
 		if elt.NumFields() != len(params) {
 			ex.Fail(fmt.Sprintf("C04: record of %s has %d fields for %d parameters", fname, elt.NumFields(), len(params)))
@@ -363,7 +363,7 @@ func runGenOp(ic *IC, ex *exec.Exec, st *L3State, m *L3Mock, op l3op) {
 		for j := range params {
 			eqs = append(eqs, c.Eq(newRec[j], toScalar(ex, params[j], newRec[j].Sort)))
 		}
-		ex.Oblige(c.And(eqs...), "C04: the new record holds the argument values field by field in parameter order")
+		ex.Oblige(c.And(eqs...), tag+": the new record holds the argument values field by field in parameter order")
 		if ps, ok := preV.(*SymSlice); ok {
 			i := c.Var("skolem_i", smt.Int)
 			old := sliceElem(ex, ps, i)
@@ -372,7 +372,7 @@ func runGenOp(ic *IC, ex *exec.Exec, st *L3State, m *L3Mock, op l3op) {
 			for j := range old {
 				keep = append(keep, c.Eq(old[j], kept[j]))
 			}
-			ex.Oblige(c.Implies(c.And(c.Le(c.IntC(0), i), c.Lt(i, n)), c.And(keep...)), "C04: every earlier record is unchanged and stays at its position")
+			ex.Oblige(c.Implies(c.And(c.Le(c.IntC(0), i), c.Lt(i, n)), c.And(keep...)), tag+": every earlier record is unchanged and stays at its position")
 		}
 		// snapshot relation is preserved (invariant of the induction)
 		ex.Oblige(c.Implies(c.Eq(sliceID(ex, post), snapP), c.Le(snapM, sliceLen(ex, post))), "C04: the snapshot invariant (p current ⇒ m ≤ len) is preserved")
@@ -418,7 +418,7 @@ func runGenOp(ic *IC, ex *exec.Exec, st *L3State, m *L3Mock, op l3op) {
 		} else {
 			ex.Pass("C04: the record is stored before the configured function runs")
 		}
-		checkRecorded()
+		checkRecorded("C04")
 		if userPanicked {
 			if pan == nil || pan.Val != userPanicVal {
 				ex.Fail("C03: a panic of the configured function does not reach the caller unchanged")
@@ -485,7 +485,7 @@ func runGenOp(ic *IC, ex *exec.Exec, st *L3State, m *L3Mock, op l3op) {
 		if len(ti.Calls) != 0 {
 			ex.Fail("C07: with -stub and a nil function field something is still invoked")
 		}
-		checkRecorded()
+		checkRecorded("C07/C04")
 		var got []exec.Value
 		switch r := ret.(type) {
 		case nil:
